@@ -3,6 +3,8 @@
 //                           d <k> | x <k> | s <max|-> | g <half hours|-> | e | r
 //   keys: file k lives at root/d<k%3>/n<k%2>/f<k> (nested dirs), outside files at <scratch>/{outside,root-old,root2,roo}[k%4]/f<k> (an unrelated directory and siblings whose names extend / shorten the root's name).
 //   "a k h D" notifies with a '..'-decorated spelling of the path.
+//   A first op "U<secs>" makes the time unit <secs> seconds instead of an hour (ages are whole units ago, the age limit is in half units); "w" then waits until
+//   one more whole unit of REAL time has passed since the case began (nothing else happens meanwhile), and ages are counted from that moment on.
 // After every e / r a snapshot is printed:  rows k:size:age_h,... ; in k,k,... ; out k,k,...   (joined by " | "); "P" if the op panicked.
 use samply_quota_manager::QuotaManager;
 use std::io::{BufRead, Write};
@@ -42,7 +44,7 @@ fn out_path(scratch: &Path, k: u64) -> PathBuf {
     scratch.join(OUT_DIRS[(k % 4) as usize]).join(format!("f{k}"))
 }
 
-fn snapshot(qm: &QuotaManager, root: &Path, outside: &Path, base: u64) -> String {
+fn snapshot(qm: &QuotaManager, root: &Path, outside: &Path, base: u64, unit: u64) -> String {
     let rows: Vec<String> = qm
         .verif_rows()
         .iter()
@@ -50,7 +52,7 @@ fn snapshot(qm: &QuotaManager, root: &Path, outside: &Path, base: u64) -> String
             let name = Path::new(p).file_name().unwrap().to_str().unwrap();
             let k: u64 = name[1..].parse::<u64>().unwrap() + if name.starts_with('F') { 6 } else { 0 };
             let age = base as i64 - *a;
-            format!("{}:{}:{}", k, size, if age % 3600 == 0 { (age / 3600).to_string() } else { format!("?{}", age) })
+            format!("{}:{}:{}", k, size, if age % unit as i64 == 0 { (age / unit as i64).to_string() } else { format!("?{}", age) })
         })
         .collect();
     let mut i = Vec::new();
@@ -75,14 +77,31 @@ async fn run_case(toks: Vec<String>) -> String {
         std::fs::create_dir_all(outside.join(d)).unwrap();
     }
     let db = scratch.join("inventory.db");
-    let base = SystemTime::now().duration_since(UNIX_EPOCH).unwrap().as_secs();
-    let t = |age_h: u64| UNIX_EPOCH + Duration::from_secs(base - age_h * 3600);
+    let mut base = SystemTime::now().duration_since(UNIX_EPOCH).unwrap().as_secs();
+    let mut unit: u64 = 3600;
     let mut qm = QuotaManager::new(&root, &db).unwrap();
     let mut out: Vec<String> = Vec::new();
     let mut i = 1;
+    if let Some(u) = toks.get(1).and_then(|s| s.strip_prefix('U')).and_then(|s| s.parse::<u64>().ok()) {
+        unit = u;
+        i = 2;
+    }
     while i < toks.len() {
         let n = |j: usize| toks[i + j].parse::<u64>().unwrap();
+        let t = |age_h: u64| UNIX_EPOCH + Duration::from_secs(base - age_h * unit);
         match toks[i].as_str() {
+            "w" => {
+                assert!(unit <= 60, "waiting is for the fast clock only");
+                base += unit;
+                loop {
+                    let now = SystemTime::now().duration_since(UNIX_EPOCH).unwrap();
+                    if now.as_secs() >= base {
+                        break;
+                    }
+                    tokio::time::sleep(Duration::from_millis(50)).await;
+                }
+                i += 1;
+            }
             "c" | "C" => {
                 let p = if toks[i] == "c" { in_path(&root, n(1)) } else { out_path(&outside, n(1)) };
                 std::fs::create_dir_all(p.parent().unwrap()).unwrap();
@@ -117,7 +136,7 @@ async fn run_case(toks: Vec<String>) -> String {
             }
             "g" => {
                 // half hours -> seconds
-                qm.set_max_age(toks[i + 1].parse::<u64>().ok().map(|h2| h2 * 1800));
+                qm.set_max_age(toks[i + 1].parse::<u64>().ok().map(|h2| h2 * unit / 2));
                 i += 2;
             }
             "e" => {
@@ -126,7 +145,13 @@ async fn run_case(toks: Vec<String>) -> String {
                     let outside = outside.clone();
                     async move {
                         qm.verif_perform_eviction().await;
-                        let s = snapshot(&qm, &root, &outside, base);
+                        let mut s = snapshot(&qm, &root, &outside, base, unit);
+                        // on the fast clock a pass belongs to the instant `base`; if it ended more than a quarter unit later (a stalled machine) the history
+                        // is not the one the case describes (rows may have crossed the age limit meanwhile): say so
+                        let now = SystemTime::now().duration_since(UNIX_EPOCH).unwrap();
+                        if unit <= 60 && now.as_millis() as u64 > base * 1000 + unit * 1000 / 4 + 1000 {
+                            s.push_str(" LATE");
+                        }
                         (qm, s)
                     }
                 })
@@ -148,7 +173,7 @@ async fn run_case(toks: Vec<String>) -> String {
                 let _ = (max_size, max_age);
                 qm.finish().await;
                 qm = QuotaManager::new(&root, &db).unwrap();
-                out.push(snapshot(&qm, &root, &outside, base));
+                out.push(snapshot(&qm, &root, &outside, base, unit));
                 i += 1;
             }
             t => panic!("bad token {t}"),
